@@ -148,12 +148,13 @@ CHECKS = {
         "Sampled histories (<= 80 steps, 3 consumers); no verdict for attendances before a subscription's first interval has elapsed; identical requests share an id.",
     ),
     "C04": (
-        "fault-injection fuzzing of the real receive loop: hypothesis streams of valid traffic with random, grammar-based and mutated bad frames on a scripted socket, judged by loop liveness and a differential twin station",
+        "fault-injection fuzzing of the real receive loops: hypothesis streams of valid traffic with random, grammar-based, mutated and 'shadow' bad frames on a scripted socket / queue, plus coverage-guided atheris (libFuzzer) campaigns over the flexstack package, judged by loop liveness and a differential twin station",
         "A full station (GN + BTP routers, CA / DEN / VRU reception, optional LDM, security off and on) reads generated streams through the real "
-        "RawLinkLayer.receive() thread from a scripted socket; the loop must consume every frame and end only at the scripted OSError, own-MAC "
+        "RawLinkLayer.receive() thread from a scripted socket (1 case in 4: the real PythonCV2XLinkLayer.callback_handler_loop from a scripted queue, vendor binding stubbed); the loop must consume every frame and end only at the scripted OSError / stop signal, own-MAC "
         "and foreign-unicast frames must never reach the router, and a twin station that gets only the valid frames must end with identical "
-        "facility deliveries, location-table entries, LDM objects and trust store.",
-        "Sampled streams (<= 14 frames) from four bad-frame generators; bad frames use a source disjoint from the valid ones; forwarding output not compared; the C-V2X loop (vendor library absent) is covered by reading only.",
+        "facility deliveries, location-table entries, LDM objects and trust store. atheris campaigns (2 x 1500 runs quick, 16 x 60000 thorough; empty and seeded corpus) decode the fuzzer's bytes into 1..3 bad frames "
+        "inserted into a fixed valid stream, with the same differential oracle inside the target; findings are collected by signature without stopping the campaign.",
+        "Sampled streams (<= 14 frames) from five bad-frame generators; bad frames use a source disjoint from the valid ones except the 'shadow' generator (certainly malformed twins of a later frame of a valid source); forwarding output not compared; the vendor side of the C-V2X queue (receive_process) is not exercised; libFuzzer campaigns are pinned by -seed/-runs only approximately, the saved input is the reproducible unit.",
     ),
     "C15": (
         "schedule fuzzing with an owned deterministic scheduler: real threads serialised at bytecode-instruction granularity (sys.settrace opcode events), cooperative locks, virtual timers as actors; hypothesis-generated and systematically enumerated schedules",
